@@ -34,7 +34,7 @@ RULE = ("random scripts N=8..40 indices; distinct = canonical script JSON; non-t
 REQUIRED_BUCKETS = ["primary-closed", "primary-raises", "primary-raises-while-fallback-in-step", "fallback-closed", "fallback-late-start", "lag:-1", "lag:0",
                     "lag:1", "lag:2", "recovery-to-primary", "both-invalid", "fallback-value-used",
                     "primary-closed-before-any-failure", "other-terms:0", "other-terms:2",
-                    "tier-B(real FallbackFormulaMetricFetcher)"]
+                    "tier-B(real FallbackFormulaMetricFetcher)", "tier-B:pv-meter", "tier-B:single-grid-meter"]
 REQUIRED_COUNTERS = ["outputs_decoded", "scripts_run"]
 ASSUMPTIONS = ["tier A: the fallback is a test double at the public FallbackMetricFetcher seam; tier B: real PVPowerFormula + "
                "FallbackFormulaMetricFetcher over a fake resampler (registry channels served per ComponentMetricRequest)"]
@@ -67,7 +67,9 @@ def gen(rng: Any, tier: str, i: int) -> Any:
     fault = rng.choice([None, None, "close_primary", "close_primary", "raise_primary", "close_fallback"])
     if rng.random() < 0.3:
         # tier B: the real PVPowerFormula with its real FallbackFormulaMetricFetcher over a fake resampler
-        return {"tier": "B", "N": N, "pmask": pmask, "fmask": [True] * N, "lag": 0, "fallback_skip": 0, "n_other": 1,
+        topo = rng.choice(["pv-meter", "pv-meter", "single-grid-meter"])
+        return {"tier": "B", "topo": topo, "N": N, "pmask": pmask, "fmask": [True] * N, "lag": 0, "fallback_skip": 0,
+                "n_other": 1 if topo == "pv-meter" else 0,
                 "fault": rng.choice([None, None, "close_primary"]), "fault_at": rng.randint(0, N - 1),
                 "yields": [rng.choice([0, 0, 1, 3, 10]) for _ in range(N + TAIL + 3)],
                 "order": [rng.random() < 0.5 for _ in range(N + TAIL + 3)],
@@ -247,10 +249,23 @@ async def _drive_b(case: dict[str, Any], out: dict[str, Any]) -> None:
     from .. import fakes
 
     C = ComponentCategory
-    comps = [Component(1, C.GRID), Component(2, C.METER), Component(3, C.METER), Component(6, C.METER),
-             Component(4, C.INVERTER, InverterType.SOLAR), Component(5, C.INVERTER, InverterType.SOLAR),
-             Component(7, C.INVERTER, InverterType.SOLAR)]
-    conns = [Connection(1, 2), Connection(2, 3), Connection(2, 6), Connection(3, 4), Connection(3, 5), Connection(6, 7)]
+    PRIMARY = 3
+    formula_cls: Any = PVPowerFormula
+    if case.get("topo") == "single-grid-meter":
+        # grid -> meter 2 -> PV inverters 4, 5: the only grid successor is a meter over devices of one kind; the grid
+        # power formula reads that meter and falls back to the inverters
+        from frequenz.sdk.timeseries.formula_engine._formula_generators import GridPowerFormula
+
+        comps = [Component(1, C.GRID), Component(2, C.METER), Component(4, C.INVERTER, InverterType.SOLAR),
+                 Component(5, C.INVERTER, InverterType.SOLAR)]
+        conns = [Connection(1, 2), Connection(2, 4), Connection(2, 5)]
+        PRIMARY = 2
+        formula_cls = GridPowerFormula
+    else:
+        comps = [Component(1, C.GRID), Component(2, C.METER), Component(3, C.METER), Component(6, C.METER),
+                 Component(4, C.INVERTER, InverterType.SOLAR), Component(5, C.INVERTER, InverterType.SOLAR),
+                 Component(7, C.INVERTER, InverterType.SOLAR)]
+        conns = [Connection(1, 2), Connection(2, 3), Connection(2, 6), Connection(3, 4), Connection(3, 5), Connection(6, 7)]
     fakes.install_connection_manager(comps, conns)
     N = case["N"]
     total = N + TAIL
@@ -259,7 +274,7 @@ async def _drive_b(case: dict[str, Any], out: dict[str, Any]) -> None:
     sub_rx = sub.new_receiver(limit=1000)
     log: dict[str, Any] = {"fallback_sent": 0}
     out["log"] = log
-    eng = PVPowerFormula("ns", reg, sub.new_sender(), FormulaGeneratorConfig(component_ids=None, allow_fallback=True)).generate()
+    eng = formula_cls("ns", reg, sub.new_sender(), FormulaGeneratorConfig(component_ids=None, allow_fallback=True)).generate()
     out["formula_str"] = str(eng)
     rx = eng.new_receiver(max_size=1000)
     await asyncio.sleep(0.001)
@@ -270,7 +285,7 @@ async def _drive_b(case: dict[str, Any], out: dict[str, Any]) -> None:
     closed = False
 
     def value(cid: int, k: int) -> Any:
-        if cid == 3:
+        if cid == PRIMARY:
             if pm[k]:
                 return Quantity(float(1000 + k))
             return None if enc[k] == "none" else Quantity(float(enc[k]))
@@ -287,7 +302,7 @@ async def _drive_b(case: dict[str, Any], out: dict[str, Any]) -> None:
         ts = fm.T0 + timedelta(seconds=k)
         order = sorted(subs, key=lambda x: (x[0] in (4, 5)) != case["order"][k])
         for cid, tx, ch, _ns in order:
-            if cid == 3 and case["fault"] == "close_primary" and k >= case["fault_at"]:
+            if cid == PRIMARY and case["fault"] == "close_primary" and k >= case["fault_at"]:
                 if not closed:
                     await ch.close()
                     closed = True
@@ -333,6 +348,7 @@ def check(case: dict[str, Any], rec: Any) -> None:
     mon = LoopMonitor()
     if case.get("tier") == "B":
         rec.bucket("tier-B(real FallbackFormulaMetricFetcher)")
+        rec.bucket("tier-B:" + case.get("topo", "pv-meter"))
         run_virtual(lambda: _drive_b(case, out), monitor=mon)
     else:
         run_virtual(lambda: _drive(case, out), monitor=mon)
